@@ -6,7 +6,6 @@
 From Coq Require Import List String Ascii Bool Arith ZArith.
 Import ListNotations.
 From Casbin Require Import Base.
-Open Scope string_scope.
 
 Record store := { pol : list rule; idx : smap nat }.
 Definition empty_store : store := {| pol := []; idx := [] |}.
@@ -29,7 +28,7 @@ Fixpoint split_tail (c : nat) (v : Z) (rl : list rule) : list rule * list rule :
   | [] => ([], [])
   | x :: t =>
       if Nat.ltb c (List.length x) then
-        match atoi (nth c x "") with
+        match atoi (nth c x ""%string) with
         | Some vx => if (vx <=? v)%Z then ([], rl)
                      else let '(mv, rest) := split_tail c v t in (mv ++ [x], rest)
         | None => ([], rl)
@@ -44,7 +43,7 @@ Definition add (prio : option nat) (s : store) (r : rule) : store :=
   match prio with
   | Some c =>
       if Nat.ltb c (List.length r) then
-        match atoi (nth c r "") with
+        match atoi (nth c r ""%string) with
         | Some v =>
             let '(mv, rest) := split_tail c v (rev (pol s)) in
             let m1 := fold_left (fun m x => incr (key x) m) (rev mv) (idx plain) in
@@ -124,12 +123,12 @@ Definition update_many (s : store) (os ns : list rule) : store * bool :=
   update_many_loop s os ns [].
 
 (* the field filter of GetFilteredPolicy / RemoveFilteredPolicy:
-   `fieldValue != "" && rule[fieldIndex+i] != fieldValue`; None = index out of range (Go panics) *)
+   `fieldValue != ""%string && rule[fieldIndex+i] != fieldValue`; None = index out of range (Go panics) *)
 Fixpoint rule_matches (fi : nat) (fvs : list string) (r : rule) : option bool :=
   match fvs with
   | [] => Some true
   | fv :: t =>
-      if String.eqb fv "" then rule_matches (S fi) t r
+      if String.eqb fv ""%string then rule_matches (S fi) t r
       else match nth_error r fi with
            | None => None
            | Some x => if String.eqb x fv then rule_matches (S fi) t r else Some false
@@ -198,7 +197,7 @@ Definition matches_spec (fi : nat) (fvs : list string) (r : rule) : bool :=
 
 (* where a rule with numeric priority v goes: after the last rule that stops the bubble *)
 Definition prio_of (c : nat) (r : rule) : option Z :=
-  if Nat.ltb c (List.length r) then atoi (nth c r "") else None.
+  if Nat.ltb c (List.length r) then atoi (nth c r ""%string) else None.
 
 Definition spec_insert (prio : option nat) (l : list rule) (r : rule) : list rule :=
   match prio with
